@@ -76,6 +76,16 @@ def _container_kind(tree: ast.Module, fn: ast.AST, target: ast.expr):
                         isinstance(v, (ast.Dict, ast.List, ast.Set)) or
                         (isinstance(v, ast.Call) and isinstance(v.func, ast.Name) and v.func.id in ("dict", "list", "set", "defaultdict", "OrderedDict"))):
                     return "module"
+        # a container of an ENCLOSING function (decorator factory): lives as long as the decorated function, shared by every object
+        p_ = getattr(fn, "_parent", None)
+        while p_ is not None:
+            if isinstance(p_, (ast.FunctionDef, ast.AsyncFunctionDef)):
+                for n in p_.body:
+                    if isinstance(n, ast.Assign) and len(n.targets) == 1 and isinstance(n.targets[0], ast.Name) and n.targets[0].id == target.id and (
+                            isinstance(n.value, (ast.Dict, ast.List, ast.Set)) or
+                            (isinstance(n.value, ast.Call) and isinstance(n.value.func, ast.Name) and n.value.func.id in ("dict", "list", "set", "defaultdict", "OrderedDict"))):
+                        return "module"
+            p_ = getattr(p_, "_parent", None)
         return None
     if isinstance(target, ast.Attribute) and isinstance(target.value, ast.Name) and target.value.id == "self":
         return "self"
@@ -213,6 +223,27 @@ def analyse_tree(tree: ast.Module, relpath: str):
                 problems.append(("key", where, n, f"cache key `{src(key)}` ignores parameter(s) {missing} on which the cached value depends: "
                                                   f"a later call with a different {missing[0]} returns the stale entry"))
             lossy = [w for w in (".shape", "len(", "id(", "type(", ".size", ".ndim") if w in key_txt]
+            # an OBJECT that enters the computation is represented in the key only by a name / string it gives of itself
+            for c_ in ast.walk(key):
+                pass
+            key_exprs = [key] + [d for nm in _names(key) for d in local_defs.get(nm, [])]
+            for ke in key_exprs:
+                for c_ in ast.walk(ke):
+                    if isinstance(c_, ast.Call) and isinstance(c_.func, ast.Attribute) and c_.func.attr in ("get_name", "get_standard_name", "__str__", "__repr__") \
+                            and isinstance(c_.func.value, (ast.Name, ast.Subscript)):
+                        root_ = c_.func.value
+                        while isinstance(root_, ast.Subscript):
+                            root_ = root_.value
+                        if not isinstance(root_, ast.Name):
+                            continue
+                        obj = root_.id
+                        src_obj = " ".join(src(d) for d in local_defs.get(obj, []))
+                        uses_obj = obj in val_names or any(nm in val_names for nm in _names(ast.parse(src_obj or "0", mode="eval")))
+                        if uses_obj or "args" in val_names:
+                            lossy.append(f"{obj}.{c_.func.attr}()")
+                    elif isinstance(c_, ast.Call) and isinstance(c_.func, ast.Name) and c_.func.id in ("str", "repr") and c_.args and \
+                            isinstance(c_.args[0], ast.Name) and (c_.args[0].id in val_names):
+                        lossy.append(f"{c_.func.id}({c_.args[0].id})")
             if lossy:
                 problems.append(("lossy", where, n, f"cache key `{key_txt[:80]}` is a lossy summary ({', '.join(lossy)}) of the data the cached value "
                                                     "is computed from: different inputs of the same size share one entry"))
